@@ -275,7 +275,7 @@ class Analysis:
             self.w.append(W("C01", kind, f"{path}: {msg}", path=path))
         st.update({f"orc_{k}": v for k, v in orc.stats.items()})
         for cls, i, s, e in pyd_fail:
-            mech, msg = explain_pydantic(e, s, structural_ok=not errs)
+            mech, msg = explain_pydantic(e, s, structural_ok=not errs, fm=fm)
             for mname in (mech if isinstance(mech, list) else [mech]):
                 self.w.append(W("C01", mname, f"{cls.__name__}.parse_obj(sample {i}) failed: {msg}", sample=i))
         if any(w["property"] == "C01" for w in self.w):
@@ -377,7 +377,7 @@ def _strings(v):
 _PYD_ACTUAL = {"date": "IsoDateString", "time": "IsoTimeString", "datetime": "IsoDatetimeString"}
 
 
-def explain_pydantic(e, sample, structural_ok):
+def explain_pydantic(e, sample, structural_ok, fm=None):
     """classify a pydantic rejection.  When the independent structural acceptor accepted the sample, the
     rejection is pydantic-specific; two known causes are recognised from the error records themselves:
     (a) pydantic.v1 rejects None for Optional[List[None]] / Optional[Dict[str, None]];
@@ -413,7 +413,12 @@ def explain_pydantic(e, sample, structural_ok):
             elif isinstance(v, str):
                 for actual, pname in _PYD_ACTUAL.items():
                     if t == f"value_error.{actual}" and oracle.p_accepts(driver.STR_CLASSES[pname], v)[0]:
-                        causes.add(f"narrower-than-detector:{actual}")
+                        if fm is None or fm(v) is driver.STR_CLASSES[pname]:
+                            # the detector itself classifies this string as that type (known finding)
+                            causes.add(f"narrower-than-detector:{actual}")
+                        else:
+                            # the string was detected as something else and only *merged* into that type: not the known finding
+                            return f"pydantic-rejects-string-merged-into:{actual}", msg + f" (string {v!r} is detected as {getattr(fm(v), '__name__', 'plain')})"
     if causes:
         # one mechanism per recognised cause (a sample may hit several known quirks at once)
         return ["pydantic-quirk:" + c for c in sorted(causes)], msg
